@@ -6,6 +6,7 @@ import (
 	"testing"
 
 	specqbft "github.com/bloxapp/ssv-spec/qbft"
+	spectypes "github.com/bloxapp/ssv-spec/types"
 
 	"github.com/bloxapp/ssv/protocol/v2/qbft/instance"
 
@@ -160,7 +161,7 @@ func (w *world) genByz(r *sim.Rand) *sim.Step {
 		round = 0
 	}
 	if r.Chance(0.08) { // far-away rounds
-		round = int64(r.Intn(12))
+		round = int64(r.Intn(17))
 	}
 	forge := int64(0)
 	if w.prop == "C02" && r.Chance(0.45) || r.Chance(0.05) {
@@ -201,7 +202,15 @@ func (w *world) script(r *sim.Rand) {
 		w.attack(r)
 		return
 	}
-	switch r.Intn(4) {
+	switch r.Intn(5) {
+	case 4: // one faulty operator announces two far rounds (around the cut-off) to one correct operator:
+		// f+1 DISTINCT signers are needed to pull an operator forward, two messages of one signer are not
+		w.d.Probe("script-far-round-pair")
+		far := int64(12 + r.Intn(5))
+		one := int64(1) << uint(r.Intn(h))
+		for from := range w.byzIdx {
+			w.plan = append(w.plan, bz(from, tRoundChange, far, 0, 0, one), bz(from, tRoundChange, far+1, 0, 0, one))
+		}
 	case 0: // split-brain equivocation: value 0 to one half, value 1 to the other, through all phases
 		w.d.Probe("script-split-brain")
 		for from := range w.byzIdx {
@@ -459,6 +468,24 @@ func (w *world) continuation(k int, shuffle *sim.Rand) (bool, int) {
 	for _, i := range w.honestIdx { // every correct operator takes part
 		w.start(w.nodes[i])
 	}
+	// "f+3 further rounds" are counted from the highest round a correct operator has reached: a single
+	// correct operator that timed out alone several times is a reachable state, and the others can only
+	// catch up one timeout at a time (one message is below the f+1 needed to jump). Catching up is not
+	// charged (false alarm of the thorough tier: 5 solitary timeouts, then f+3 = 4 waves were too few).
+	hi, lo := specqbft.Round(0), specqbft.Round(1<<30)
+	for _, i := range w.honestIdx {
+		if inst := w.instOf(w.nodes[i]); inst != nil && !inst.State.Decided {
+			if inst.State.Round > hi {
+				hi = inst.State.Round
+			}
+			if inst.State.Round < lo {
+				lo = inst.State.Round
+			}
+		}
+	}
+	if hi > lo {
+		budget += int(hi - lo)
+	}
 	for iter := 0; iter < 20000; iter++ {
 		pl := w.pendingList()
 		// Byzantine operators went silent: their undelivered messages are never delivered
@@ -569,6 +596,7 @@ func runC07(t *testing.T, d *sim.D) {
 	faultFree := len(w.byzIdx) == 0 && d.Cfg.Get("steps", 1) == 0
 	prefix := append([]sim.Step(nil), d.Steps...)
 	var tried []string
+	var last *world
 	for k := 0; k < nOrderings; k++ {
 		cw := w
 		if k > 0 {
@@ -587,6 +615,7 @@ func runC07(t *testing.T, d *sim.D) {
 			d.Probe("continuation-retry")
 		}
 		cw.inContinuation = true
+		last = cw
 		ok, rounds := cw.continuation(k, sim.NewRand(d.Seed^uint64(k)*7919))
 		tried = append(tried, fmt.Sprintf("ordering%d:decided=%v,rounds=%d", k, ok, rounds))
 		if ok {
@@ -618,6 +647,37 @@ func runC07(t *testing.T, d *sim.D) {
 			return
 		}
 	}
+	// a recognisable cause gets its own signature: some correct operators decided ONLY through a decided
+	// message handed to them (they never held a quorum of single commits, so they never broadcast a
+	// decided message themselves), decided instances take no part in later rounds, and the remaining
+	// correct operators are fewer than a quorum
+	if last != nil {
+		var undecided, byCert []spectypes.OperatorID
+		own := 0
+		for _, i := range last.honestIdx {
+			nd := last.nodes[i]
+			inst := last.instOf(nd)
+			if inst == nil || !inst.State.Decided {
+				undecided = append(undecided, nd.id)
+				continue
+			}
+			singles := map[spectypes.OperatorID]bool{}
+			for _, m := range inst.State.CommitContainer.AllMessaged() {
+				if len(m.Signers) == 1 {
+					singles[m.Signers[0]] = true
+				}
+			}
+			if len(singles) < last.quorum() {
+				byCert = append(byCert, nd.id)
+			} else {
+				own++
+			}
+		}
+		if len(undecided) > 0 && len(undecided) < last.quorum() && len(byCert) > 0 && own == 0 {
+			d.Finding("no-terminating-continuation", "left-behind/others-decided-only-by-received-certificate", "operators %v can never decide: operators %v decided only through a decided message handed to them by a Byzantine member (no commit quorum of their own, so no decided broadcast of their own), decided instances take no part in later rounds, and %d undecided correct operator(s) are below the quorum of %d (tried %v)", undecided, byCert, len(undecided), last.quorum(), tried)
+			return
+		}
+	}
 	d.Violate("no-terminating-continuation", "all-orderings", "after faults stopped no synchronous continuation let all correct operators decide within f+3=%d timeout rounds (%v)", w.f+3, tried)
 }
 
@@ -632,6 +692,6 @@ var Specs = map[string]*sim.Spec{
 		Rule:        "as C01, with 45% of Byzantine sends forged (bad signature, foreign/zero/duplicate signer, root mismatch, wrong height/identifier, sub-quorum padded signer list, garbage type) and 40% aggregated-commit (decided) templates; every decision reported by Controller.ProcessMsg and every instance handed to the store is judged by an independent certificate verifier. Non-trivial/distinct as C01.",
 		Assumptions: []string{"independent verifier trusts herumi FastAggregateVerify and ssv-spec ComputeSigningRoot", "locally reached decisions are observed at controller level (runner-level saves are exercised by runnersim)"}},
 	"C07": {Sim: "qbftsim", GenConfig: genConfig("C07"), Run: runC07, Real: commonReal, Stub: commonStub,
-		Rule:        "adversarial prefix of random length as C01 (b<=f silent or equivocating), then faults stop: Byzantine operators silent, in-flight messages among correct operators flushed, synchronous rounds with simultaneous timeouts; all correct operators must decide within f+3 timeout rounds; up to 18 continuations (9 delivery orderings x 2 timeout policies) are tried before a violation is reported. Side conditions: fault-free in-order run decides in round 1 on the leader's value; every timeout before the cut-off bumps the round, clears the proposal, re-arms the timer and broadcasts a round-change.",
+		Rule:        "adversarial prefix of random length as C01 (b<=f silent or equivocating), then faults stop: Byzantine operators silent, in-flight messages among correct operators flushed, synchronous rounds with simultaneous timeouts; all correct operators must decide within f+3 timeout rounds beyond the highest round a correct operator had reached (laggards catching up to it are not charged); up to 18 continuations (9 delivery orderings x 2 timeout policies) are tried before a violation is reported. Side conditions: fault-free in-order run decides in round 1 on the leader's value; every timeout before the cut-off bumps the round, clears the proposal, re-arms the timer and broadcasts a round-change.",
 		Assumptions: []string{"partial synchrony: loss between correct operators in the prefix is unbounded delay", "existential continuation is searched over 18 continuations only (another might succeed): calibrated on the unchanged tree"}},
 }
